@@ -182,3 +182,22 @@ package iobroker
 //@   on enter Broker.ConnectIn(bb, c, l, a, ww, k): assert(nTok == 1 && k == b.bidirKey + strconv.FormatUint(rid, 10) && bb == b && ww == w, "input_side_gets_the_per_request_key"); nIn++
 //@   on enter Broker.ConnectOut(bb, c, l, a, rr, k): assert(nTok == 1 && k == b.bidirKey + strconv.FormatUint(rid, 10) && bb == b && rr == r, "output_side_gets_the_per_request_key"); nOut++
 //@   ensures both_sides_once: nIn == 1 && nOut == 1 && nTok == 1
+
+// ---- operator notices from the broker (C10)
+//@ func Broker.sendLine(b, color, addr, format, a)
+//@   props C10
+//@   ghost n int = 0
+//@   on send b.och(cl): assert(cl.Line == "[" + addr + "] " + sprintf(format, a) && cl.Color == color && !cl.Plain, "notice_is_addr_plus_message_verbatim"); n++
+//@   ensures one_line: n == 1
+
+//@ func Broker.Logf(b, addr, format, a)
+//@   props C10
+//@   ghost n int = 0
+//@   on enter Broker.sendLine(bb, c, ad, f, aa): assert(bb == b && ad == addr && f == format && aa == a, "forwarded_unchanged"); n++
+//@   ensures one_line: n == 1
+
+//@ func Broker.Errorf(b, addr, format, a)
+//@   props C10
+//@   ghost n int = 0
+//@   on enter Broker.sendLine(bb, c, ad, f, aa): assert(bb == b && ad == addr && f == format && aa == a, "forwarded_unchanged"); n++
+//@   ensures one_line: n == 1
